@@ -6,6 +6,7 @@ import ZarrsModel.Driver.C08
 import ZarrsModel.Driver.C09
 import ZarrsModel.Driver.C10
 import ZarrsModel.Driver.C11
+import ZarrsModel.Driver.C12
 import ZarrsModel.Driver.C13
 import ZarrsModel.Driver.C14
 import ZarrsModel.Driver.C15
@@ -31,6 +32,7 @@ structure DState where
   c15 : DriverC15.St := {}
   c16 : DriverC16.St := {}
   c13 : DriverC13.St := {}
+  c12 : DriverC12.St := {}
 
 /-- new state, acceptable outcomes (`any` accepts everything), optional note -/
 def dispatch (st : DState) (l : Line) : Option (DState × List String × Option String) :=
@@ -51,6 +53,7 @@ def dispatch (st : DState) (l : Line) : Option (DState × List String × Option 
   | some "c20" => (DriverC20.handle st.c01 l).map (fun (s, a, n) => ({ st with c01 := s }, a, n))
   | some "c19" => (DriverC19.handle l).map (fun a => (st, a, none))
   | some "c11" => (DriverC11.handle l).map (fun m => (st, [m], none))
+  | some "c12" => (DriverC12.handle st.c12 l).map (fun (s, a) => ({ st with c12 := s }, a, none))
   | some "c13" => (DriverC13.handle st.c13 l).map (fun (s, a, n) => ({ st with c13 := s }, a, n))
   | some "c14" => (DriverC14.handle l).map (fun a => (st, a, none))
   | _ => none
@@ -72,6 +75,9 @@ def main (args : List String) : IO UInt32 := do
   -- `driver --gen c18 <tier> <seed>`: the driver is the case generator where only the model knows the valid cases
   if let ["--gen", "c18", tier, seed] := args then
     for l in DriverC18.genCases tier (seed.toNat?.getD 1) do IO.println l
+    return 0
+  if let ["--gen", "c12", tier, seed] := args then
+    for l in DriverC12.genCases tier (seed.toNat?.getD 1) do IO.println l
     return 0
   let stdin ← IO.getStdin
   let (ok, diff, bad) ← loop stdin {} 1 0 0 0
